@@ -1,4 +1,6 @@
 import PV.Lemmas.IPCSysV
+import PV.Lemmas.IPCSysVInv
+import PV.Lemmas.IPCSysVNew
 /-!
 # C06, System V variant — named semaphore (`psemaphore-sysv.c` + key files of `pipc.c` over `PV.SysV.OS`)
 
@@ -23,6 +25,38 @@ theorem source_as_modelled :
     sites_p_semaphore_acquire = ["semop", "pp_semaphore_clean_handle", "pp_semaphore_create_handle", "semop"] ∧
     sites_p_semaphore_release = ["semop", "pp_semaphore_clean_handle", "pp_semaphore_create_handle"] ∧
     sites_p_ipc_unix_create_key_file = ["open"] ∧ sites_p_ipc_unix_get_ftok_key = ["stat"] := by decide
+
+/-! ## 1. one set per name -/
+
+/-- All handles of one name opened since the name's last creation refer to the same live semaphore set — for EVERY
+    schedule (any interleaving of the system calls of any calls of any threads of any processes, SIGKILLs, EINTR) —
+    under the two explicit hypotheses: (a) inode numbers are not reused (`Inv.bound.noreuse : g.os.reuse = false`, the
+    oracle of finding F15), (b) no owner free of the name in between (`QuietRun f g as`: no call is at the IPC_RMID /
+    unlink of a clean-up of `f`).  `Inv f i id`: key file `f` has inode `i`, whose key names the live set `id`, nothing
+    else refers to `i` / `id`; every live struct of `f` (PSemaphore, or the lock inside a PShm) has `sem_hdl = id`, every
+    struct of another name has a different id; every machine in flight (a call between two of its system calls) is
+    consistent with that.  `f` is a semaphore key file (`.sem n` or `.lock n`). -/
+theorem one_set_per_name (f : KeyFile) (i : Ino) (id : SemId) (hfs : ∀ n, f ≠ .shm n) (g : G) (as : List Action)
+    (h0 : Inv f i id g) (hq : QuietRun f g as) : Inv f i id (execAll g as) :=
+  inv_execAll f i id hfs as g h0 hq
+
+/-- … hence any two live handles of the name (in any processes) work on one live set: their `semop`s are the same
+    system call, and the key file still names that set -/
+theorem same_set (f : KeyFile) (i : Ino) (id : SemId) (g : G) (h1 h2 : Hid) (p1 p2 : Pid) (x1 x2 : PSem)
+    (hi : Inv f i id g) (e1 : g.hs h1 = some (p1, .sem x1)) (e2 : g.hs h2 = some (p2, .sem x2)) (f1 : x1.file = f) (f2 : x2.file = f) :
+    x1.hdl = some id ∧ x2.hdl = some id ∧ (g.os.sems id).alive = true ∧
+    (g.os.files f).bind (fun j => g.os.semKeys (ftokOf j)) = some id := by
+  have a1 := hi.hs h1 p1 _ e1
+  have a2 := hi.hs h2 p2 _ e2
+  simp only [Handle.inv, PSem.inv, f1, f2, if_true] at a1 a2
+  exact ⟨a1, a2, hi.bound.alive, by simp [hi.bound.file, hi.bound.key]⟩
+
+/-- frame: a step of a call working on ANOTHER name (its current key file is not `f`) leaves the set of `f` — value,
+    SEM_UNDO adjustments, liveness — untouched, and (by `one_set_per_name`) the binding as well -/
+theorem other_names_do_not_touch_the_set (f : KeyFile) (i : Ino) (id : SemId) (hfs : ∀ n, f ≠ .shm n) (g : G) (t : Tid) (intr : Bool)
+    (c : Call) (hi : Inv f i id g) (hq : Quiet f g) (hc : g.calls t = some c) (hf : c.file ≠ f) :
+    (g.step t intr).os.sems id = g.os.sems id :=
+  step_frame f i id hfs g t intr c hi hq hc hf
 
 /-! ## 2. acquire / release on a live set -/
 
@@ -97,6 +131,77 @@ theorem acquire_eintr_erased (g : G) (t : Tid) (h : Hid) (script : List Nat) :
 theorem release_eintr_erased (g : G) (t : Tid) (h : Hid) (script : List Nat) :
     (g.call t (.rel h) script).Same (g.call t (.rel h) []) :=
   eintr_transparent g t (.rel h) script
+
+/-! ## 3–4. OPEN ignores the initial value, CREATE sets exactly the given value — for every value and every state
+   satisfying the invariant of §1 (per system call of the `p_semaphore_new` in flight) -/
+
+/-- what one step of a `p_semaphore_new` in flight leads to -/
+def NewOutcome (f : KeyFile) (id : SemId) (m : Mode) (g' : G) (t : Tid) (hid : Hid) (p : Pid) (init : Nat) : Prop :=
+  (∃ s', g'.calls t = some (.semNew hid s') ∧ s'.h.file = f ∧ s'.h.init = init ∧
+      (s'.opening m ∨ (m = .create ∧ s'.pc = .cSetval ∧ s'.api = .new ∧ s'.h.hdl = some id))) ∨
+  (m = .open ∧ ∃ h, g'.calls t = none ∧ g'.hs hid = some (p, .sem h) ∧ g'.ret t = some (.sem h) ∧ h.hdl = some id ∧ h.file = f)
+
+theorem new_step (f : KeyFile) (i : Ino) (id : SemId) (m : Mode) (g : G) (t : Tid) (intr : Bool) (hid : Hid) (s : SemSt)
+    (hi : Inv f i id g) (hc : g.calls t = some (.semNew hid s)) (hf : s.h.file = f) (ho : s.opening m) :
+    (g.step t intr).os.sems id = g.os.sems id ∧ NewOutcome f id m (g.step t intr) t hid (g.pidOf t) s.h.init := by
+  have hs := new_step_value (g.pidOf t) intr 0 s g.os f i id m hi.bound hf (hi.calls t _ hc) ho
+  refine ⟨by rw [step_os g t intr _ hc]; exact hs.1, ?_⟩
+  have h2 := hs.2
+  cases hr : s.after (sysStep (g.pidOf t) intr s.next g.os 0).2 with
+  | cont s' =>
+    rw [hr] at h2
+    left
+    refine ⟨s', ?_, h2.1, h2.2.1, h2.2.2.2⟩
+    simp [G.step, hc, Call.next, Call.after, Call.name, hr, G.setCall]
+  | done x =>
+    obtain ⟨h, e⟩ := x
+    rw [hr] at h2
+    obtain ⟨hm, he, hh, hfile⟩ := h2
+    subst he
+    right
+    refine ⟨hm, h, ?_, ?_, ?_, hh, hfile⟩ <;>
+      simp [G.step, hc, Call.next, Call.after, Call.name, hr, G.setCall, G.setRet, G.setHandle]
+
+
+
+/-- `p_semaphore_new (name_n, init, mode)` started by an idle thread of a live process on a free slot is a machine in
+    its `opening` phase on key file `.sem n` -/
+theorem start_new_opening (g : G) (t : Tid) (hid : Hid) (n init : Nat) (m : Mode)
+    (hal : (g.os.procs (g.pidOf t)).alive = true) (hidle : g.calls t = none) (hh : g.hs hid = none) :
+    ∃ s, (g.start t (.newSem hid n init m)).calls t = some (.semNew hid s) ∧ s.h.file = .sem n ∧ s.h.init = init ∧ s.opening m ∧
+      (g.start t (.newSem hid n init m)).os = g.os := by
+  refine ⟨{ api := .new, h := { file := .sem n, hdl := some 0, mode := m, init := init }, pc := .cOpen }, ?_, rfl, rfl, ⟨rfl, rfl, Or.inl rfl⟩, ?_⟩ <;>
+    simp [G.start, hal, hidle, hh, G.setCall]
+
+/-- ∀-version: OPEN on an existing name ignores the initial value.  In ANY state satisfying the invariant (name bound to
+    the live set `id`), every system call of an OPEN-mode `p_semaphore_new` of that name in flight — for any initial value
+    `s.h.init`, interrupted or not, whatever the other threads and processes did before — leaves the set (value, SEM_UNDO
+    adjustments) exactly as it was; the call either goes on in the same phase or returns a struct with `sem_hdl = id`. -/
+theorem open_ignores_init_on_existing (f : KeyFile) (i : Ino) (id : SemId) (g : G) (t : Tid) (intr : Bool) (hid : Hid) (s : SemSt)
+    (hi : Inv f i id g) (hc : g.calls t = some (.semNew hid s)) (hf : s.h.file = f) (ho : s.opening .open) :
+    (g.step t intr).os.sems id = g.os.sems id ∧ NewOutcome f id .open (g.step t intr) t hid (g.pidOf t) s.h.init :=
+  new_step f i id .open g t intr hid s hi hc hf ho
+
+/-- ∀-version: CREATE on an existing name sets exactly the given value.  (a) Before its SETVAL a CREATE-mode
+    `p_semaphore_new` of the bound name leaves the set alone and arrives at the SETVAL with `sem_hdl = id` … -/
+theorem create_reaches_setval (f : KeyFile) (i : Ino) (id : SemId) (g : G) (t : Tid) (intr : Bool) (hid : Hid) (s : SemSt)
+    (hi : Inv f i id g) (hc : g.calls t = some (.semNew hid s)) (hf : s.h.file = f) (ho : s.opening .create) :
+    (g.step t intr).os.sems id = g.os.sems id ∧ NewOutcome f id .create (g.step t intr) t hid (g.pidOf t) s.h.init :=
+  new_step f i id .create g t intr hid s hi hc hf ho
+
+/-- … (b) and the SETVAL step gives the set EXACTLY the value handed to `p_semaphore_new` (any value up to SEMVMX), on the
+    same set `id` that every other handle of the name uses, clears the SEM_UNDO adjustments, and returns the struct. -/
+theorem create_sets_value (f : KeyFile) (i : Ino) (id : SemId) (g : G) (t : Tid) (intr : Bool) (hid : Hid) (s : SemSt)
+    (hi : Inv f i id g) (hc : g.calls t = some (.semNew hid s)) (hpc : s.pc = .cSetval) (ha : s.api = .new)
+    (hh : s.h.hdl = some id) (hv : s.h.init ≤ SEMVMX) :
+    ((g.step t intr).os.sems id).value = s.h.init ∧ ((g.step t intr).os.sems id).alive = true ∧
+    (∀ q, ((g.step t intr).os.sems id).adj q = 0) ∧
+    (g.step t intr).calls t = none ∧ (g.step t intr).hs hid = some (g.pidOf t, .sem s.h) ∧ (g.step t intr).ret t = some (.sem s.h) := by
+  have hs := setval_step (g.pidOf t) intr 0 s g.os f i id hi.bound hpc ha hh hv
+  rw [step_os g t intr _ hc]
+  refine ⟨hs.1, hs.2.1, hs.2.2.1, ?_, ?_, ?_⟩ <;>
+    simp [G.step, hc, Call.next, Call.after, Call.name, hs.2.2.2, G.setCall, G.setRet, G.setHandle]
+
 
 /-! ## 3–6. OPEN / CREATE / owner free / crash recovery — ENUMERATED FINITE SCOPE (evaluation of the executable model,
    `decide`), clearly not ∀-statements: initial values 0..3, fresh machine (with and without inode reuse), one name -/
@@ -184,6 +289,51 @@ theorem crash_recoverable_scope :
   decide
 
 /-! ## non-vacuity -/
+
+/-- the state after `0 new-sem 0 s0 2 OPEN; 1 new-sem 1 s0 5 OPEN`, written out: key file s0 = inode 1, key 1 = set 0
+    (value 2, alive), the creator's struct and a follower's struct -/
+def boundDemo : G :=
+  { os := { OS.init with files := fun g => if g = .sem 0 then some 1 else none, nextIno := 2,
+                         semKeys := fun k => if k = 1 then some 0 else none,
+                         sems := fun j => if j = 0 then { value := 2, alive := true } else {}, nextSem := 1 },
+    pidOf := id,
+    hs := fun h => if h = 0 then some (0, .sem ⟨false, true, some 1, .sem 0, some 0, .open, 2⟩)
+                   else if h = 1 then some (1, .sem ⟨false, false, some 1, .sem 0, some 0, .open, 5⟩) else none,
+    calls := fun _ => none, ret := fun _ => none, log := [] }
+
+set_option maxRecDepth 100000 in
+/-- … and it is what the model computes (on everything the invariant looks at, at the points that are not `none`) -/
+example :
+    let g := ((G.init id).call 0 (.newSem 0 0 2 .open)).call 1 (.newSem 1 0 5 .open)
+    g.os.files (.sem 0) = boundDemo.os.files (.sem 0) ∧ g.os.semKeys 1 = boundDemo.os.semKeys 1 ∧
+    (g.os.sems 0).alive = (boundDemo.os.sems 0).alive ∧ (g.os.sems 0).value = (boundDemo.os.sems 0).value ∧
+    g.os.nextSem = boundDemo.os.nextSem ∧ g.os.nextIno = boundDemo.os.nextIno ∧ g.os.reuse = boundDemo.os.reuse ∧
+    g.hs 0 = boundDemo.hs 0 ∧ g.hs 1 = boundDemo.hs 1 ∧ g.calls 0 = none ∧ g.calls 1 = none := by decide
+
+/-- the hypotheses of `one_set_per_name` / `same_set` / `other_names_do_not_touch_the_set` are satisfiable: the invariant
+    holds in `boundDemo`, and a schedule in which a third process is SIGKILLed is quiet -/
+example : Inv (.sem 0) 1 0 boundDemo ∧ QuietRun (.sem 0) boundDemo [.kill 2] ∧ (∀ n, KeyFile.sem 0 ≠ .shm n) := by
+  refine ⟨⟨⟨rfl, rfl, rfl, by decide, ?_, ?_, by decide, rfl⟩, ?_, ?_⟩, ⟨?_, trivial⟩, by intro n e; cases e⟩
+  · intro k hk
+    simp only [boundDemo] at hk
+    split at hk
+    · assumption
+    · cases hk
+  · intro g hg
+    simp only [boundDemo] at hg
+    split at hg
+    · assumption
+    · cases hg
+  · intro h p x hx
+    simp only [boundDemo] at hx
+    split at hx
+    · simp only [Option.some.injEq, Prod.mk.injEq] at hx; rw [← hx.2]; simp [Handle.inv, PSem.inv]
+    · split at hx
+      · simp only [Option.some.injEq, Prod.mk.injEq] at hx; rw [← hx.2]; simp [Handle.inv, PSem.inv]
+      · cases hx
+  · intro t c hc; cases hc
+  · intro t c hc; cases hc
+
 
 set_option maxRecDepth 100000 in
 /-- the hypotheses of `acquire_consumes` / `release_adds_partial` are met by the model's own states: a release in flight
